@@ -230,6 +230,11 @@ def run(ck):
     rnd = ck.rng("c09")
     rnd.shuffle(cases)
     cases = cases[:cap]
+    # data whose labels are all equal are binary data too (the relabelled problem can still have two classes)
+    const = [c for c in ck.tlc_shards("Moments", lambda k: M.cfg(4, 2, 1, 2, True, mode="table_all", laws=(), nshards=8, shard=k), 8, "payoff tables incl. constant labels N<=4 G=2 F=2",
+                                      same_space=True, timeout=3000) if len({r[1] for r in c["rows"]}) == 1 and len(c["rows"]) >= 3]
+    rnd.shuffle(const)
+    cases += const[: (30 if ck.quick else 150)]
     jobs = []
     for c in cases:
         for _ in range(per):
